@@ -59,9 +59,12 @@ Definition decrypt_data (sk : N) (p : pad) : dres :=
 
 Inductive body := BChunk (content : bytes) | BPad (p : pad) | BJunk.
 
-(* r_hdr: the RecordKind tag decoded from the first RecordHeader::SIZE+1 bytes, None if that fails
+(* r_key: the key the returned record carries -- chosen by whoever answers: nothing between the
+   holders and the client checks that a reply is keyed with what was asked for, and no read path
+   may rely on it.
+   r_hdr: the RecordKind tag decoded from the first RecordHeader::SIZE+1 bytes, None if that fails
    (short value, not a header, tag outside 0..7) *)
-Record record := { r_hdr : option N; r_body : body }.
+Record record := { r_key : N; r_hdr : option N; r_body : body }.
 
 Definition parse_chunk (r : record) : option bytes :=
   match r_body r with BChunk c => Some c | _ => None end.
@@ -79,8 +82,10 @@ Definition KIND_CHUNK : N := Consts.client_kind_chunk.
 Definition KIND_SCRATCHPAD : N := Consts.client_kind_scratchpad.
 
 (* what an honest holder serves: the chunk / the scratchpad under its own record kind *)
-Definition chunk_record (c : bytes) : record := {| r_hdr := Some KIND_CHUNK; r_body := BChunk c |}.
-Definition pad_record (p : pad) : record := {| r_hdr := Some KIND_SCRATCHPAD; r_body := BPad p |}.
+Definition chunk_record (k : N) (c : bytes) : record :=
+  {| r_key := k; r_hdr := Some KIND_CHUNK; r_body := BChunk c |}.
+Definition pad_record (k : N) (p : pad) : record :=
+  {| r_key := k; r_hdr := Some KIND_SCRATCHPAD; r_body := BPad p |}.
 
 (* ---------------------------------------------------------------- ant-networking: split handling *)
 
@@ -114,20 +119,22 @@ Fixpoint split_loop (kind : option N) (best : option pad) (l : list record) : op
       end
   end.
 
-Definition handle_split (m : list record) : option record :=
+(* the merged record is built under the requested key *)
+Definition handle_split (key : N) (m : list record) : option record :=
   if (1 <? N.of_nat (List.length m)) then
     match split_loop None None m with
-    | Some p => Some {| r_hdr := Some KIND_SCRATCHPAD; r_body := BPad p |}   (* re-serialised *)
+    | Some p => Some {| r_key := key; r_hdr := Some KIND_SCRATCHPAD; r_body := BPad p |}   (* re-serialised *)
     | None => None
     end
   else None.
 
-(* Network::get_record_from_network with cfg.retry_strategy = None (one attempt) *)
-Definition get_record (rp : reply) : record + gerr :=
+(* Network::get_record_from_network(key, cfg) with cfg.retry_strategy = None (one attempt); an Ok
+   record is handed on as it came, whatever key it carries *)
+Definition get_record (key : N) (rp : reply) : record + gerr :=
   match rp with
   | ROk r => inl r
   | RErr (GSplit m) =>
-      match handle_split m with Some r => inl r | None => inr (GSplit m) end
+      match handle_split key m with Some r => inl r | None => inr (GSplit m) end
   | RErr e => inr e
   end.
 
@@ -137,9 +144,10 @@ Inductive cerr := CNet (e : gerr) | CHeader | CKind | CDeser.
 
 (* public.rs chunk_get (after the repair): fetch, header, kind check, deserialise (the chunk's
    address is recomputed from its content by Chunk's Deserialize), and compare that address with
-   the requested one *)
+   the *requested* one (not with record.key, which the holders choose).  The record key asked for
+   is the address itself (to_record_key of a ChunkAddress is its xorname). *)
 Definition chunk_get (H : bytes -> N) (rp : reply) (addr : N) : bytes + cerr :=
-  match get_record rp with
+  match get_record addr rp with
   | inr e => inr (CNet e)
   | inl r =>
       match r_hdr r with
@@ -194,9 +202,10 @@ Definition vault_pick (pk : N) (m : list record) : pad + verr :=
       end
   end.
 
-(* vault.rs get_vault_from_network (after the repair) *)
-Definition get_vault (rp : reply) (pk : N) : pad + verr :=
-  match get_record rp with
+(* vault.rs get_vault_from_network (after the repair); `key` is the record key of the requested
+   key's scratchpad address (a hash of the public key) *)
+Definition get_vault (key : N) (rp : reply) (pk : N) : pad + verr :=
+  match get_record key rp with
   | inl r =>
       match parse_pad r with
       | None => inr VInvalidPad
@@ -209,8 +218,8 @@ Definition get_vault (rp : reply) (pk : N) : pad + verr :=
 Inductive vres := VOk (data : bytes) (encoding : N) | VOkGarbled (encoding : N) | VErr (e : verr).
 
 (* vault.rs fetch_and_decrypt_vault: the secret key and the requested public key are one pair *)
-Definition fetch_and_decrypt_vault (rp : reply) (sk : N) : vres :=
-  match get_vault rp sk with
+Definition fetch_and_decrypt_vault (key : N) (rp : reply) (sk : N) : vres :=
+  match get_vault key rp sk with
   | inr e => VErr e
   | inl p =>
       match decrypt_data sk p with
@@ -256,8 +265,8 @@ Definition agree_chunk_get (tab : list (bytes * N)) (rp : reply) (addr : N) (out
 
 (* fetch_and_decrypt_vault outcome: inl (Some data | None = some undetermined bytes, encoding)
    | inr code *)
-Definition agree_vault (rp : reply) (sk : N) (out : (option bytes * N) + string) : bool :=
-  match fetch_and_decrypt_vault rp sk, out with
+Definition agree_vault (key : N) (rp : reply) (sk : N) (out : (option bytes * N) + string) : bool :=
+  match fetch_and_decrypt_vault key rp sk, out with
   | VOk m e, inl (Some m', e') => bytes_eqb m m' && (e =? e')
   | VOkGarbled e, inl (_, e') => e =? e'
   | VErr e, inr s => String.eqb (verr_code e) s
@@ -267,8 +276,8 @@ Definition agree_vault (rp : reply) (sk : N) (out : (option bytes * N) + string)
 (* get_or_create_scratchpad exposes the pad get_vault_from_network returned: its counter, whether
    is_valid() holds and whether the requested key owns it; on any read error it creates a fresh
    pad instead (is_new = true) *)
-Definition agree_vault_pad (rp : reply) (pk : N) (out : option (N * bool * bool)) : bool :=
-  match get_vault rp pk, out with
+Definition agree_vault_pad (key : N) (rp : reply) (pk : N) (out : option (N * bool * bool)) : bool :=
+  match get_vault key rp pk, out with
   | inl p, Some (c, v, o) => (p_counter p =? c) && Bool.eqb (is_valid p) v && Bool.eqb (p_owner p =? pk) o
   | inr _, None => true
   | _, _ => false
